@@ -87,6 +87,11 @@ public:
 }  // namespace ephemeralnet::daemon
 extern "C" void h_path_split_stub2(std::filesystem::path*) {}
 extern "C" void h_fs_absolute(std::filesystem::path* out, const std::filesystem::path* in) { new (out) std::filesystem::path(*in); }
+// the error_code overload of std::filesystem::absolute: identity on the text; the empty path is an error (as in the real one)
+extern "C" void h_fs_absolute_ec(std::filesystem::path* out, const std::filesystem::path* in, std::error_code* ec) {
+    if (in->native().empty()) { *ec = std::error_code(22, ec->category()); new (out) std::filesystem::path(); return; }
+    *ec = std::error_code(0, ec->category()); new (out) std::filesystem::path(*in);
+}
 using namespace ephemeralnet; using namespace ephemeralnet::daemon;
 namespace {
 std::string sym_text(unsigned long n, const char* tag) { std::string t; for (unsigned long i = 0; i < n; ++i) t.push_back(static_cast<char>(nondet_u8(tag))); return t; }
